@@ -350,16 +350,21 @@ def lf6(F, R):
         rb, rt = rot[0]
         ab, at = add[0]
         ok = fn.term_of_operand(rt["args"][1], rb)[:2] == ("c", 1)
-        a0 = fn.term_of_operand(at["args"][0], ab)
-        ok = ok and a0[0] == "call" and a0[1].endswith("rotate_right")
+        # acc' = rotate_right(acc, 1) + byte, the sum written either way round (wrapping addition commutes)
+        a0, a1 = strip_refs(fn.term_of_operand(at["args"][0], ab)), strip_refs(fn.term_of_operand(at["args"][1], ab))
+        is_rot = lambda q: q[0] == "call" and q[1] and q[1].endswith("rotate_right") and q[3] == rb
+        is_item = lambda q: has_sub(q, lambda z: z[0] == "call" and z[1] and z[1].endswith("Iterator::next")) and not has_sub(q, lambda z: z[0] == "call" and z[1] and z[1].endswith(("rotate_right", "wrapping_add")))
+        ok = ok and ((is_rot(a0) and is_item(a1)) or (is_rot(a1) and is_item(a0)))
         # the accumulator: rotate_right's first argument is the loop-carried result variable
         acc = strip_refs(fn.term_of_operand(rt["args"][0], rb))
         ok = ok and acc[0] == "var" and any(d[:2] == ("c", 0) for d in var_def_terms(fn, acc[1]))
         it = None
         for b, t in fn.calls():
-            if (callee_of(t) or "").endswith("::iter"):
+            if (callee_of(t) or "").endswith(("::iter", "IntoIterator::into_iter")) and "contents" in tstr(fn.term_of_operand(t["args"][0], b)):
                 it = tstr(fn.term_of_operand(t["args"][0], b))
         ok = ok and it is not None and "contents" in it
+        # the new value is what the accumulator becomes
+        ok = ok and any(strip_refs(d)[0] == "call" and strip_refs(d)[3] == ab for d in var_def_terms(fn, acc[1]))
     if not ok and not fn.loops():
         # the same computation as `self.contents.iter().fold(0, |sum, &b| sum.rotate_right(1).wrapping_add(b))`
         from .mir import inline_closure
